@@ -30,6 +30,7 @@ type Prog struct {
 	CanaryFuncs []*ssa.Function
 	GOARCH      string
 	sites       map[*ssa.Function][]ssa.CallInstruction
+	CanaryDropped []string // packages whose canary file did not compile against this tree
 }
 
 var expectedPkgs = []string{"barcode", "aztec", "codabar", "code128", "code39", "code93", "datamatrix", "ean", "pdf417", "qr", "twooffive", "utils"}
@@ -70,6 +71,38 @@ func Load(repoDir, goarch string, overlay map[string][]byte) (*Prog, error) {
 		}
 	})
 	if len(errs) > 0 {
+		// a canary that no longer compiles against this tree is a problem of the self-check, not of
+		// the repository: drop the canary files of the affected packages and load again
+		onlyCanary := len(overlay) > 0
+		drop := map[string]bool{}
+		for _, e := range errs {
+			if !strings.Contains(e, canaryFileName) {
+				onlyCanary = false
+			}
+		}
+		if onlyCanary {
+			ov := map[string][]byte{}
+			for f, b := range overlay {
+				bad := false
+				for _, e := range errs {
+					if strings.Contains(e, f) {
+						bad = true
+					}
+				}
+				if bad {
+					drop[f] = true
+				} else {
+					ov[f] = b
+				}
+			}
+			p2, err := Load(repoDir, goarch, ov)
+			if err == nil {
+				for f := range drop {
+					p2.CanaryDropped = append(p2.CanaryDropped, filepath.Base(filepath.Dir(f)))
+				}
+			}
+			return p2, err
+		}
 		sort.Strings(errs)
 		return nil, fmt.Errorf("type-check/load errors (%d): %s", len(errs), strings.Join(errs, "; "))
 	}
@@ -116,6 +149,7 @@ func Load(repoDir, goarch string, overlay map[string][]byte) (*Prog, error) {
 	}
 	sort.Slice(p.Funcs, func(i, j int) bool { return p.FuncName(p.Funcs[i]) < p.FuncName(p.Funcs[j]) })
 	sort.Slice(p.CanaryFuncs, func(i, j int) bool { return p.FuncName(p.CanaryFuncs[i]) < p.FuncName(p.CanaryFuncs[j]) })
+	p.installAliases()
 	if len(p.Funcs) < 100 {
 		return nil, fmt.Errorf("only %d source functions found; expected >= 100", len(p.Funcs))
 	}
@@ -168,7 +202,7 @@ func (p *Prog) Func(name string) *ssa.Function {
 			return fn
 		}
 	}
-	return nil
+	return p.renamedFunc(name)
 }
 
 func (p *Prog) Pos(pos token.Pos) string {
